@@ -73,7 +73,7 @@ static void h_inv_blocked_nonneg_(void)
 }
 static inline void h_watch_pool(ABT_pool p)
 {
-    if (p == ABT_POOL_NULL)
+    if (p == ABT_POOL_NULL || p == (ABT_pool)0)
         return;
     for (int i = 0; i < h_nwatched_; i++)
         if (h_watched_[i] == p)
